@@ -622,4 +622,170 @@ theorem hashComplete_P (K : List PyVal) (hK : StrictK K) (hKo : KeyOk K) (c : IO
   | _ :: rest, p, .tail _ hm, y, d1, d2, h => hashComplete_P K hK hKo c H hinj hex hrepr rest p hm y d1 d2 h
 end
 
+/-! ### `ReprInj` holds: the rendering of canonical short decimals is injective -/
+
+def fracL (n : Int) (s : Nat) : List Char :=
+  if s = 0 then ['0'] else List.replicate (s - (Nat.toDigits 10 (n.natAbs % 10 ^ s)).length) '0' ++ Nat.toDigits 10 (n.natAbs % 10 ^ s)
+
+theorem floatRepr_toList (n : Int) (s : Nat) :
+    (floatRepr n s).toList = (if n < 0 then ['-'] else []) ++ Nat.toDigits 10 (n.natAbs / 10 ^ s) ++ '.' :: fracL n s := by
+  unfold floatRepr fracL
+  simp only [String.toList_append, Nat.toString_eq_repr, Nat.toList_repr]
+  have h1 : (if n < 0 then "-" else "").toList = (if n < 0 then ['-'] else []) := by
+    split <;> simp_all
+  rw [h1]
+  have h2 : (".":String).toList = ['.'] := by decide
+  rw [h2]
+  have h3 : (if s = 0 then "0" else String.ofList (List.replicate (s - (n.natAbs % 10 ^ s).repr.length) '0') ++ (n.natAbs % 10 ^ s).repr).toList
+      = (if s = 0 then ['0'] else List.replicate (s - (Nat.toDigits 10 (n.natAbs % 10 ^ s)).length) '0' ++ Nat.toDigits 10 (n.natAbs % 10 ^ s)) := by
+    split
+    · decide
+    · simp [String.toList_append, Nat.repr_eq_ofList_toDigits]
+  rw [h3]
+  simp
+
+theorem fracL_length (n : Int) (s : Nat) : (fracL n s).length = if s = 0 then 1 else s := by
+  unfold fracL
+  split
+  · rfl
+  · rename_i hs
+    have hlt : n.natAbs % 10 ^ s < 10 ^ s := Nat.mod_lt _ (Nat.pow_pos (by decide))
+    have := (Nat.length_toDigits_le_iff (b := 10) (n := n.natAbs % 10 ^ s) (k := s) (by decide) (by omega)).2 hlt
+    simp only [List.length_append, List.length_replicate]
+    omega
+
+theorem fracL_value (n : Int) (s : Nat) : Nat.ofDigitChars 10 (fracL n s) 0 = n.natAbs % 10 ^ s := by
+  unfold fracL
+  split
+  · rename_i hs
+    subst hs
+    simp [Nat.ofDigitChars, Nat.mod_one]
+  · rw [Nat.ofDigitChars_append, Nat.ofDigitChars_replicate_zero, Nat.mul_zero, Nat.ofDigitChars_ten_toDigits]
+
+theorem digits_no (ch : Char) (hd : ch.isDigit = false) (k : Nat) : ch ∉ Nat.toDigits 10 k := by
+  intro hm
+  have := Nat.isDigit_of_mem_toDigits (b := 10) (by decide) (by decide) hm
+  rw [hd] at this; cases this
+
+theorem toDigits_inj {a b : Nat} (h : Nat.toDigits 10 a = Nat.toDigits 10 b) : a = b := by
+  have := congrArg (fun l => Nat.ofDigitChars 10 l 0) h
+  simpa using this
+
+theorem reprInj : ReprInj := by
+  intro n n' s s' hc hc' h
+  have hl := congrArg String.toList h
+  rw [floatRepr_toList, floatRepr_toList] at hl
+  have hpre : ∀ (m : Int) (k : Nat), '.' ∉ (if m < 0 then ['-'] else []) ++ Nat.toDigits 10 k := by
+    intro m k hm
+    rw [List.mem_append] at hm
+    rcases hm with hm | hm
+    · split at hm <;> simp at hm
+    · exact digits_no '.' (by decide) k hm
+  obtain ⟨h1, h2⟩ := Hash.append_sep_inj '.' _ _ _ _ (hpre n _) (hpre n' _) hl
+  have hlen := congrArg List.length h2
+  rw [fracL_length, fracL_length] at hlen
+  have hval := congrArg (fun l => Nat.ofDigitChars 10 l 0) h2
+  simp only [fracL_value] at hval
+  -- sign and integer part
+  have hsign : (n < 0 ↔ n' < 0) ∧ n.natAbs / 10 ^ s = n'.natAbs / 10 ^ s' := by
+    by_cases hn : n < 0 <;> by_cases hn' : n' < 0 <;> simp only [hn, hn', if_true, if_false, List.nil_append, List.cons_append, List.cons.injEq, true_and] at h1
+    · exact ⟨by simp [hn, hn'], toDigits_inj h1⟩
+    · exfalso
+      have : '-' ∈ Nat.toDigits 10 (n'.natAbs / 10 ^ s') := by rw [← h1]; simp
+      exact digits_no '-' (by decide) _ this
+    · exfalso
+      have : '-' ∈ Nat.toDigits 10 (n.natAbs / 10 ^ s) := by rw [h1]; simp
+      exact digits_no '-' (by decide) _ this
+    · exact ⟨by simp [hn, hn'], toDigits_inj h1⟩
+  obtain ⟨hs1, hs2⟩ := hsign
+  have fin : s = s' → n = n' ∧ s = s' := by
+    intro e
+    subst e
+    refine ⟨?_, rfl⟩
+    have ha : n.natAbs = n'.natAbs := by
+      rw [← Nat.div_add_mod n.natAbs (10 ^ s), ← Nat.div_add_mod n'.natAbs (10 ^ s), hs2, hval]
+    omega
+  by_cases e : s = s'
+  · exact fin e
+  · exfalso
+    -- lengths force {0, 1}
+    have : (s = 0 ∧ s' = 1) ∨ (s = 1 ∧ s' = 0) := by
+      split at hlen <;> split at hlen <;> omega
+    rcases this with ⟨rfl, rfl⟩ | ⟨rfl, rfl⟩
+    · simp only [Nat.pow_zero, Nat.mod_one, Nat.pow_one] at hval
+      rcases hc' with h0 | hm
+      · omega
+      · omega
+    · simp only [Nat.pow_zero, Nat.mod_one, Nat.pow_one] at hval
+      rcases hc with h0 | hm
+      · omega
+      · omega
+
+/-! ### the hypotheses on the hasher are satisfiable: an injective function with separator-free, non-empty outputs -/
+
+def enc (ch : Char) : List Char :=
+  if ch = ',' then ['\\', 'a'] else if ch = '|' then ['\\', 'b'] else if ch = ':' then ['\\', 'c']
+  else if ch = ';' then ['\\', 'd'] else if ch = '\\' then ['\\', 'e'] else [ch]
+
+/-- an injective "hasher" with non-empty, separator-free outputs (escape the framing characters) -/
+def escH (s : String) : String := "h" ++ String.ofList (s.toList.flatMap enc)
+
+theorem enc_cases (ch : Char) :
+    (ch = ',' ∧ enc ch = ['\\', 'a']) ∨ (ch = '|' ∧ enc ch = ['\\', 'b']) ∨ (ch = ':' ∧ enc ch = ['\\', 'c']) ∨
+    (ch = ';' ∧ enc ch = ['\\', 'd']) ∨ (ch = '\\' ∧ enc ch = ['\\', 'e']) ∨
+    (ch ≠ ',' ∧ ch ≠ '|' ∧ ch ≠ ':' ∧ ch ≠ ';' ∧ ch ≠ '\\' ∧ enc ch = [ch]) := by
+  unfold enc
+  by_cases h1 : ch = ','
+  · subst h1; exact Or.inl ⟨rfl, by decide⟩
+  by_cases h2 : ch = '|'
+  · subst h2; exact Or.inr (Or.inl ⟨rfl, by decide⟩)
+  by_cases h3 : ch = ':'
+  · subst h3; exact Or.inr (Or.inr (Or.inl ⟨rfl, by decide⟩))
+  by_cases h4 : ch = ';'
+  · subst h4; exact Or.inr (Or.inr (Or.inr (Or.inl ⟨rfl, by decide⟩)))
+  by_cases h5 : ch = '\\'
+  · subst h5; exact Or.inr (Or.inr (Or.inr (Or.inr (Or.inl ⟨rfl, by decide⟩))))
+  · exact Or.inr (Or.inr (Or.inr (Or.inr (Or.inr ⟨h1, h2, h3, h4, h5, by simp [h1, h2, h3, h4, h5]⟩))))
+
+theorem enc_prefix (c1 c2 : Char) (r1 r2 : List Char) (h : enc c1 ++ r1 = enc c2 ++ r2) : c1 = c2 ∧ r1 = r2 := by
+  rcases enc_cases c1 with ⟨e1, h1⟩ | ⟨e1, h1⟩ | ⟨e1, h1⟩ | ⟨e1, h1⟩ | ⟨e1, h1⟩ | ⟨n1, n2, n3, n4, n5, h1⟩ <;>
+  rcases enc_cases c2 with ⟨e2, h2⟩ | ⟨e2, h2⟩ | ⟨e2, h2⟩ | ⟨e2, h2⟩ | ⟨e2, h2⟩ | ⟨m1, m2, m3, m4, m5, h2⟩ <;>
+  rw [h1, h2] at h <;> simp at h <;> grind
+
+theorem flatMap_enc_inj : ∀ l1 l2 : List Char, l1.flatMap enc = l2.flatMap enc → l1 = l2
+  | [], [], _ => rfl
+  | [], c :: l, h => by
+    exfalso
+    simp only [List.flatMap_nil, List.flatMap_cons] at h
+    rcases enc_cases c with ⟨_, h1⟩ | ⟨_, h1⟩ | ⟨_, h1⟩ | ⟨_, h1⟩ | ⟨_, h1⟩ | ⟨_, _, _, _, _, h1⟩ <;> rw [h1] at h <;> simp at h
+  | c :: l, [], h => by
+    exfalso
+    simp only [List.flatMap_nil, List.flatMap_cons] at h
+    rcases enc_cases c with ⟨_, h1⟩ | ⟨_, h1⟩ | ⟨_, h1⟩ | ⟨_, h1⟩ | ⟨_, h1⟩ | ⟨_, _, _, _, _, h1⟩ <;> rw [h1] at h <;> simp at h
+  | c1 :: l1, c2 :: l2, h => by
+    simp only [List.flatMap_cons] at h
+    obtain ⟨e, hr⟩ := enc_prefix _ _ _ _ h
+    rw [e, flatMap_enc_inj l1 l2 hr]
+
+theorem escH_injective : Function.Injective escH := by
+  intro a b h
+  unfold escH at h
+  have := congrArg String.toList h
+  simp only [String.toList_append, String.toList_ofList] at this
+  exact String.toList_inj.1 (flatMap_enc_inj _ _ (List.append_cancel_left this))
+
+theorem escH_hex : Hex escH := by
+  intro s
+  constructor
+  · intro h
+    have := congrArg String.toList h
+    simp [escH, String.toList_append] at this
+  · intro ch hm
+    simp only [escH, String.toList_append, String.toList_ofList, List.mem_append, List.mem_flatMap] at hm
+    rcases hm with hm | ⟨c, _, hc⟩
+    · have : ch = 'h' := by simpa using hm
+      subst this; decide
+    · rcases enc_cases c with ⟨_, h1⟩ | ⟨_, h1⟩ | ⟨_, h1⟩ | ⟨_, h1⟩ | ⟨_, h1⟩ | ⟨n1, n2, n3, n4, _, h1⟩ <;> rw [h1] at hc <;> simp at hc
+      all_goals first | (rcases hc with rfl | rfl <;> decide) | (subst hc; exact ⟨n1, n2, n3, n4⟩)
+
 end DiffIO
